@@ -27,6 +27,8 @@ unsafe impl Sync for SyncOnly {}
 fn assert_send<T: ?Sized + Send>() {}
 fn assert_sync<T: ?Sized + Sync>() {}
 fn touch<T: ?Sized>(_: &T) {}
+struct Loud<'a>(&'a u32);
+impl<'a> Drop for Loud<'a> { fn drop(&mut self) { touch(self.0); } }
 """
 
 # ---------------------------------------------------------------------------------------------------
@@ -356,41 +358,52 @@ def arcborrow_probes(thorough):
 
 # a handle cannot outlive data that its payload borrows
 PAYLOAD_MK = {
-    "Arc": "Arc::new(&x)",
-    "OffsetArc": "Arc::into_raw_offset(Arc::new(&x))",
-    "ThinArc": "ThinArc::from_header_and_slice(&x, &[1u8])",
-    "ThinArc-slice": "ThinArc::from_header_and_slice(1u8, &[&x])",
-    "ArcUnion": "ArcUnion::<&u32, u8>::from_first(Arc::new(&x))",
-    "ArcUnion-second": "ArcUnion::<u8, &u32>::from_second(Arc::new(&x))",
-    "UniqueArc": "UniqueArc::new(&x)",
+    "Arc": "Arc::new({0})",
+    "OffsetArc": "Arc::into_raw_offset(Arc::new({0}))",
+    "ThinArc": "ThinArc::from_header_and_slice({0}, &[1u8])",
+    "ThinArc-slice": "ThinArc::from_header_and_iter(1u8, vec![{0}].into_iter())",
+    "ArcUnion": "ArcUnion::<_, u8>::from_first(Arc::new({0}))",
+    "ArcUnion-second": "ArcUnion::<u8, _>::from_second(Arc::new({0}))",
+    "UniqueArc": "UniqueArc::new({0})",
 }
 
 
-def payload_probes(thorough, dropck_model=False):
+def payload_probes(thorough, eyepatch=False):
+    """`eyepatch`: the probes run against the crate built with nightly + unstable_dropck_eyepatch, where
+    `#[may_dangle] T` on `Drop for Arc` makes the PhantomData<T> ownership marker the thing that keeps the
+    drop check honest; there the model's `owns` verdict is the prediction."""
     out = []
     for name, mk in PAYLOAD_MK.items():
         kind = name.split("-")[0]
-        # used after the referent died
-        body = "fn main() { let h; { let x = 5u32; h = %s; } touch(&h); }\n" % mk
-        out.append(borrow_probe("payload-use-" + name, "payload-borrow", kind, "payload &'a T", "handle used after referent died", body,
-                                [], [], [], predict={"const": "reject"}))
-        # only dropped after the referent died: drop check
-        body = "fn main() { let h; { let x = 5u32; h = %s; } }\n" % mk
-        if dropck_model:
-            out.append(borrow_probe("payload-drop-" + name, "payload-dropck", kind, "payload &'a T", "handle dropped after referent died", body,
-                                    ["owns " + kind], ["true"], []))
-        else:
-            out.append(borrow_probe("payload-drop-" + name, "payload-dropck", kind, "payload &'a T", "handle dropped after referent died", body,
+        for pay, pname in (("&x", "ref"), ("Loud(&x)", "droppy")):
+            h = mk.format(pay)
+            tag = "%s-%s" % (name, pname)
+            # used after the referent died
+            body = "fn main() { let h; { let x = 5u32; h = %s; } touch(&h); }\n" % h
+            out.append(borrow_probe("payload-use-" + tag, "payload-borrow", kind, "payload " + pname, "handle used after referent died", body,
                                     [], [], [], predict={"const": "reject"}))
-        # returned from the scope of the referent
-        body = "fn esc<'x>() -> impl Sized + 'x { let x = 5u32; %s }\nfn main() {}\n" % mk
-        if thorough:
-            out.append(borrow_probe("payload-return-" + name, "payload-borrow", kind, "payload &'a T", "handle returned past referent", body,
-                                    [], [], [], predict={"const": "reject"}))
-        # control
-        body = "fn main() { let x = 5u32; let h = %s; touch(&h); }\n" % mk
-        out.append(borrow_probe("ctl-payload-" + name, "control", kind, "payload &'a T", "referent outlives handle", body, [], [], [],
-                                expect="accept", predict={"const": "accept"}))
+            # only dropped after the referent died: the drop check
+            body = "fn main() { let h; { let x = 5u32; h = %s; } }\n" % h
+            if pname == "droppy":
+                # the payload's destructor reads the referent: must be rejected in every configuration
+                if eyepatch:
+                    out.append(borrow_probe("payload-drop-" + tag, "payload-dropck", kind, "payload " + pname, "handle dropped after referent died", body,
+                                            ["owns " + kind], ["true"], []))
+                else:
+                    out.append(borrow_probe("payload-drop-" + tag, "payload-dropck", kind, "payload " + pname, "handle dropped after referent died", body,
+                                            [], [], [], predict={"const": "reject"}))
+            elif not eyepatch:
+                # a plain reference has no destructor; the stable `impl Drop` (no may_dangle) is conservative and refuses it anyway
+                out.append(borrow_probe("payload-drop-" + tag, "payload-dropck", kind, "payload " + pname, "handle dropped after referent died", body,
+                                        [], [], [], predict={"const": "reject"}))
+            if thorough:
+                body = "fn esc<'x>() -> impl Sized + 'x { let x = 5u32; %s }\nfn main() {}\n" % h
+                out.append(borrow_probe("payload-return-" + tag, "payload-borrow", kind, "payload " + pname, "handle returned past referent", body,
+                                        [], [], [], predict={"const": "reject"}))
+            # control
+            body = "fn main() { let x = 5u32; let h = %s; touch(&h); }\n" % h
+            out.append(borrow_probe("ctl-payload-" + tag, "control", kind, "payload " + pname, "referent outlives handle", body, [], [], [],
+                                    expect="accept", predict={"const": "accept"}))
     return out
 
 
@@ -411,9 +424,9 @@ def misc_controls():
     return out
 
 
-def all_probes(thorough=False, dropck_model=False, rng=None):
+def all_probes(thorough=False, rng=None):
     ps = auto_probes(thorough, rng) + accessor_probes(thorough) + callback_probes(thorough) + arcborrow_probes(thorough) \
-        + payload_probes(thorough, dropck_model) + misc_controls()
+        + payload_probes(thorough, False) + misc_controls()
     ids = set()
     for p in ps:
         assert p["id"] not in ids, p["id"]
